@@ -151,6 +151,27 @@ parsed:
     u8_slow(c, s, n, lc);
 }
 
+// the same judgement for a tail that follows `pad` ASCII characters in the same call: the decoder has special paths for "ill-formed, but some characters
+// are already decoded" (it stops in front of the sequence so that the error is raised by the next call with the right position) - the bytes of the
+// ill-formed sequence must not be counted as eaten
+static void u8_padded(Ctx& c, const uint8_t* tail, size_t n, int pad, LocalCounts& lc) {
+    uint8_t buf[96];
+    memset(buf, 'a', (size_t)pad); memcpy(buf + pad, tail, n);
+    size_t total = (size_t)pad + n;
+    RefParse rp = ref_utf8_parse(buf, total);
+    FromRes r = x_from(g_utf8, buf, total, 64);
+    std::string outcome;
+    std::string err = check_from(rp, r, 64, true, &outcome);
+    if (err.empty() && !r.threw && rp.term == RefParse::ILLFORMED && r.eaten == rp.term_pos) {
+        // deferred: the next call, which starts on the ill-formed sequence, has to raise the error
+        FromRes r2 = x_from(g_utf8, buf + r.eaten, total - r.eaten, 64);
+        if (!r2.threw && (total - r.eaten) >= (size_t)utf8_announced_len(buf[r.eaten])) err = "ill-formed sequence deferred by the first call is accepted by the second";
+        else outcome = "deferred-then-rejected";
+    }
+    if (!err.empty()) { c.violation("utf8-decode", "\"input_hex\":" + jstr("61 x " + std::to_string(pad) + " + " + hexb(tail, n)) + ",\"problem\":" + jstr(err) + ",\"ref_term\":" + std::to_string((int)rp.term)); return; }
+    lc.m["padded:" + outcome]++;
+}
+
 // every edge of every byte range of Table 3-7 (and its neighbours), plus one plain ASCII letter and one mid continuation byte
 static const int U8_BOUNDARY[32] = {0x00, 0x41, 0x7F, 0x80, 0x8F, 0x90, 0x9F, 0xA0, 0xB0, 0xBF, 0xC0, 0xC1, 0xC2, 0xDF, 0xE0, 0xE1,
                                     0xEC, 0xED, 0xEE, 0xEF, 0xF0, 0xF1, 0xF3, 0xF4, 0xF5, 0xF7, 0xF8, 0xFB, 0xFC, 0xFD, 0xFE, 0xFF};
@@ -175,6 +196,16 @@ static void run_utf8dec(uint64_t idx, Ctx& c) {
             if (k.kind == 1) {  // quick subset: the first three bytes must be a legal (possibly incomplete) prefix
                 RefParse p3 = ref_utf8_parse(s, 3);
                 if (p3.term == RefParse::ILLFORMED) continue;
+            }
+            if (k.kind == 3) {  // boundary-byte product behind 31, 32, 33 and 40 already decoded characters (lengths 1..4)
+                if (!u8_is_boundary(a)) continue;
+                static const int PADS[] = {31, 32, 33, 40};
+                for (int pad : PADS) {
+                    if (a == U8_BOUNDARY[0]) { u8_padded(c, s, 2, pad, lc); strings++; }
+                    u8_padded(c, s, 3, pad, lc); strings++;
+                    for (int b = 0; b < 256; b++) { if (!u8_is_boundary(b)) continue; s[3] = (uint8_t)b; u8_padded(c, s, 4, pad, lc); strings++; }
+                }
+                continue;
             }
             if (k.kind == 2) {  // boundary-byte product: third and fourth byte from U8_BOUNDARY only
                 if (!u8_is_boundary(a)) continue;
@@ -203,6 +234,9 @@ static void setup_utf8dec(const Args& a, Runner& R) {
         for (int b0 : {0xF0, 0xF1, 0xF4, 0xF5}) for (int b1 : B1) full.insert((uint32_t)(b0 << 8 | b1));
         for (uint32_t p : full) g_u8cases.push_back(U8Case{4, p, 0});
         for (int b0 : U8_BOUNDARY) for (int b1 : U8_BOUNDARY) { uint32_t p = (uint32_t)(b0 << 8 | b1); if (!full.count(p)) g_u8cases.push_back(U8Case{4, p, 2}); }
+    } else if (mode == "padded") {
+        g_u8cases.clear();
+        for (int b0 : U8_BOUNDARY) for (int b1 : U8_BOUNDARY) if (b0 >= 0x80) g_u8cases.push_back(U8Case{4, (uint32_t)(b0 << 8 | b1), 3});
     } else if (mode == "thorough") {
         // every 4-byte string whose first byte is C0..FF (all lead-byte rows of Table 3-7 and all illegal leads), and every 4-byte
         // string whose first byte is a boundary value of the two remaining rows (00..7F: 00,41,7F; 80..BF: 80,BF)
